@@ -665,6 +665,26 @@ def run(chk):
             except Exception as e:
                 dec_terms.append(f"({cstr('?')}, {cxml(tree)}, 0)")
         index.append((i, cname))
+    # hand-made documents for the xs:boolean lexical space read by _str_to_bool (orderRelevant, levelType children)
+    nbool = 0
+    for (i, cname, obj) in singles:
+        if cname not in ("SubmodelElementList", "DataSpecificationIEC61360") or nbool >= (8 if quick else 40):
+            continue
+        try:
+            v = xval(meta, obj, set())
+            tree = xml_abs(object_to_xml_element(obj))
+            m = members_of[cname][0]
+            ctor = [flat_tuple(t)[2] for mm, t in striples if mm == m and flat_tuple(t)[1] == cname][0]
+            variants = bool_variants(tree, cname)
+        except Exception as e:
+            chk.tie_broken("correspondence-observe", f"boolean case {i} {cname}: {type(e).__name__}: {e}")
+            continue
+        if not variants:
+            continue
+        nbool += 1
+        for t2 in variants:
+            chk.count("boolean_lexical_variant")
+            dec_terms.append(f"({cstr(ctor)}, {cxml(t2)}, {common.coq_z(sdk_read_hash(meta, t2, m, v))})")
     # stores through write_store / read_store
     store_terms, read_terms, sidx = [], [], []
     from basyx.aas.adapter.xml.xml_serialization import object_store_to_xml_element
@@ -738,6 +758,52 @@ def run(chk):
                            "lexical stress strings); single objects of 29 classes through every matching "
                            "XMLConstructables member; correspondence on the single objects (enc, dec, wf) and on small "
                            "stores (write_store/read_store); non-trivial = every case (distinct by kind and index)")
+
+
+BOOL_TEXTS = ["true", "false", "1", "0", " true", "false ", "\n1\t", " 0 ", "\r\n true \r\n", "TRUE", "", " ", "yes",
+              "t rue", "10", "true1"]
+
+
+def bool_variants(tree, cname):
+    """the tree with the text of its boolean leaf (orderRelevant / first levelType child) replaced by each BOOL_TEXTS"""
+    tag, text, kids = tree
+    out = []
+    for txt in BOOL_TEXTS:
+        t = txt if txt != "" else None
+        if cname == "SubmodelElementList":
+            if not any(k[0] == "orderRelevant" for k in kids):
+                return []
+            out.append((tag, text, [(k[0], t, k[2]) if k[0] == "orderRelevant" else k for k in kids]))
+        else:
+            lv = [k for k in kids if k[0] == "levelType"]
+            if not lv or not lv[0][2]:
+                return []
+            first = lv[0][2][0]
+            nlv = ("levelType", lv[0][1], [(first[0], t, first[2])] + lv[0][2][1:])
+            out.append((tag, text, [nlv if k[0] == "levelType" else k for k in kids]))
+    return out
+
+
+def to_lxml(x):
+    from lxml import etree
+    el = etree.Element(NS + x[0], nsmap={"aas": NS[1:-1]})
+    if x[1] is not None:
+        el.text = x[1]
+    for k in x[2]:
+        el.append(to_lxml(k))
+    return el
+
+
+def sdk_read_hash(meta, tree, member, orig):
+    """what the strict single-object reader makes of the document: hash of the value, or -1 (an exception)"""
+    from lxml import etree
+    from basyx.aas.adapter.xml import read_aas_xml_element, XMLConstructables
+    raw = etree.tostring(to_lxml(tree), encoding="UTF-8", xml_declaration=True)
+    try:
+        back = read_aas_xml_element(io.BytesIO(raw), getattr(XMLConstructables, member), failsafe=False)
+    except (KeyError, ValueError, TypeError):
+        return -1
+    return zh(flat_val(align(xval(meta, back, set()), orig), []))
 
 
 def single_writer_gaps(chk, unsupported):
